@@ -15,7 +15,8 @@ THEOREMS = ['C05_spec_ok', 'C05_depinfo_roundtrip', 'C05_depinfo_lossless', 'C05
             'C05_args_injective_guarded',
             'C05_order_insensitive', 'C05_excluded_args_unhashed', 'C05_shape_table', 'C05_shape_table_ok_iff',
             'C05_accepted_shape', 'C05_staticlibs_lookup', 'C05_staticlib_search_order', 'C05_staticlib_alt_spelling_refuted',
-            'C05_staticlib_modifier_hashed', 'C05_compile_command_colour', 'C05_sysroot_libs_complete']
+            'C05_staticlib_modifier_hashed', 'C05_compile_command_colour', 'C05_sysroot_libs_complete',
+            'C05_depinfo_run_sees_request', 'C05_archive_members_all_hashed', 'C05_extern_order_insensitive']
 ASSUMPTIONS = [
     'sccache is REQUIRED to re-read every input file (sources, included files, --extern rlibs, static libraries, target json) on every request: a replacement with the same path, size and modification time must still be seen (monitored in-process by keypair same_stamp and end to end by the sm_* steps; no theorem depends on file metadata)',
     'named assumption about rustc (observed with rustc 1.95, unix target): for `-l static[:modifiers]=NAME` the archive bundled is libNAME.a from the FIRST of the `-L native=DIR` / `-L all=DIR` / `-L DIR` directories, in command-line order, that contains it (Model/RustArgs.v rustc_static_pick)',
@@ -278,6 +279,9 @@ def gen_argv(rng):
 
 def gen_args(rng, n):
     out = [[list(BASE_ARGV), []]]
+    for e in ([b'--extern', b'ua=pkg_b/libutil.rlib', b'--extern', b'ub=pkg_a/libutil.rlib'], [b'--extern', b'ub=pkg_a/libutil.rlib', b'--extern', b'ua=pkg_b/libutil.rlib'],
+              [b'--extern=x=z/libq.rlib', b'--extern', b'y=a/b/libq.rlib', b'--extern', b'w=a/libq.rlib']):
+        out.append([list(BASE_ARGV) + e, []])
     for s in ARG_SNIPPETS:
         out.append([list(BASE_ARGV) + s, ARG_FILES])
         out.append([s + list(BASE_ARGV), ARG_FILES])
@@ -463,7 +467,10 @@ def ar_archive(members):
     return out
 
 
-ARCHIVES = [ar_archive([(b'a.o', b'AAAA')]), ar_archive([(b'a.o', b'AAAB')]), ar_archive([(b'a.o', b'AAAA'), (b'b.o', b'B')])]
+ARCHIVES = [ar_archive([(b'a.o', b'AAAA')]), ar_archive([(b'a.o', b'AAAB')]), ar_archive([(b'a.o', b'AAAA'), (b'b.o', b'B')]),
+            ar_archive([(b'util.o', b'AAAA'), (b'util.o', b'BBBB'), (b'z.o', b'Z')]),
+            ar_archive([(b'util.o', b'AAAC'), (b'util.o', b'BBBB'), (b'z.o', b'Z')]),
+            ar_archive([(b'util.o', b'BBBB'), (b'util.o', b'AAAA'), (b'z.o', b'Z')])]
 
 
 def digests():
@@ -595,6 +602,7 @@ def mutate(rng, r):
         kinds += ['static_picked_content', 'static_picked_content', 'static_shadowed_content', 'static_dirs_swap', 'static_dirs_swap']
     kinds += ['envdep_class'] * 4 + ['arg_perm'] * 4 + ['same_stamp'] * 5 + ['content_swap'] * 4
     kinds += ['line_endings'] * 3 + ['colour'] * 3
+    kinds += ['extern_same_name'] * 3 + ['archive_same_name_member'] * 3
     if b'spec.json' in argv:
         kinds += ['target_content']
     k = rng.choice(kinds)
@@ -682,6 +690,26 @@ def mutate(rng, r):
     elif k == 'static_dirs_swap':
         i = argv.index(b'native=zz_own')
         argv[i], argv[i + 2] = argv[i + 2], argv[i]
+    elif k == 'extern_same_name':
+        # two --extern files with the SAME file name in different directories, given in either order: one key
+        r0 = clone(r)
+        d1, d2 = rng.choice([(b'pkg_b', b'pkg_a'), (b'host/deps', b'deps'), (b'z', b'a/b')])
+        r0['files'][d1 + b'/libutil.rlib'] = b'rlib-v1'
+        r0['files'][d2 + b'/libutil.rlib'] = b'rlib-v2'
+        e1, e2 = [b'--extern', b'ua=' + d1 + b'/libutil.rlib'], [b'--extern', b'ub=' + d2 + b'/libutil.rlib']
+        m = clone(r0)
+        r0['argv'] = argv + e1 + e2
+        m['argv'] = argv + e2 + e1
+        return 'extern_same_name', 'same', r0, m
+    elif k == 'archive_same_name_member':
+        # a static library with two members of one name (`ar q` of a/util.o and b/util.o): the earlier one is edited,
+        # or the two are exchanged (the linker takes the first definition)
+        r0 = clone(r)
+        r0['files'][b'dup/libdupm.a'] = ARCHIVES[3]
+        r0['argv'] = argv + [b'-L', b'native=dup', b'-l', b'static=dupm']
+        m = clone(r0)
+        m['files'][b'dup/libdupm.a'] = rng.choice([ARCHIVES[4], ARCHIVES[5]])
+        return 'archive_same_name_member', exp, r0, m
     elif k == 'line_endings':
         # a file of the dep-info list changes ONLY in its line endings (LF <-> CRLF, all or some lines): other bytes, other key
         r0 = clone(r)
@@ -872,6 +900,24 @@ def appended_options(res):
     return out
 
 
+def gen_archive(rng, n):
+    out = []
+    names = [b'a.o', b'util.o', b'util.o', b'b.o', b'lib.rmeta', b'x', b'util.o']
+    for _ in range(n):
+        ms = [[rng.choice(names), rng.choice([b'', b'A', b'AAAA', b'BBBB', b'AAAC', b'0123456789', b'xy'])] for _ in range(rng.range(0, 6))]
+        out.append([ms, ar_archive([(a, b) for a, b in ms])])
+    return out
+
+
+def mon_archive(case, out):
+    if not isinstance(out, list) or out[:1] != [b'ok']:
+        return [] if not case[0] else ['hash_all_archives failed on a well-formed archive']
+    if out[2] != 1:
+        return ['the digest of a static library is not the digest of all its members in archive order (names %r): an edit of some member, '
+                'or an exchange of two, would keep the key' % ([m[0] for m in case[0]],)]
+    return []
+
+
 SO_NAMES = [b'librustc_driver-6108105cd7e839cf.so', b'libstd-1.so', b'libLLVM.so.22.1-rust-1.95.0-stable', b'libLLVM-22-rust.so', b'notes.txt',
             b'rustlib', b'libtest-9.so', b'x.so', b'.so', b'a.SO', b'lib.so.so', b'so']
 
@@ -918,6 +964,18 @@ def mon_key_one(res):
             vs.append('the recorded pre-image does not hash to the returned key')
         if res[2] != 1:
             vs.append('the pre-image does not end with hash(cwd) ++ hash(rustc -vV)')
+        if len(res) > 7:
+            want = []
+            for p in res[5]:
+                if p[0] in (b'--emit', b'--out-dir'):
+                    continue
+                want.append(p[0])
+                if p[1]:
+                    want.append(p[1][0])
+            if res[7] != want:
+                missing = [x for x in want if x not in res[7]]
+                vs.append('the preliminary dep-info run (which decides the source files and env-deps of the key) is not given the request\'s '
+                          'arguments: missing %r (it would expand the crate under another configuration)' % (missing or res[7],))
         if len(res) > 6:
             has_json = any(p[0] == b'--json' for p in res[5])
             want = [] if has_json else [b'--color', b'always']
@@ -1086,6 +1144,11 @@ def legs(tier):
             nontrivial=lambda c, o: isinstance(o, list) and len(o) == 3 and o[1][:1] == [b'ok'] and o[2][:1] == [b'ok'],
             rule='pairs of requests in one working directory that differ by one mutation out of 24 classes; the monitor demands '
                  'different keys for a changed hashed input and equal keys for reorderings / unhashed inputs'),
+        Leg('archive', lambda rng, t: gen_archive(rng, 5000 if big else 400), monitor=mon_archive,
+            nontrivial=lambda c, o: len(c[0]) >= 2,
+            stats=lambda c, o: ['dupnames' if len(set(m[0] for m in c[0])) < len(c[0]) else 'unique'],
+            rule='ar archives of 0-5 members (repeated member names, empty / equal-length data): the real hash_all_archives against the '
+                 'digest of the model pre-image (every member in archive order, name then data)'),
         Leg('sysroot', lambda rng, t: gen_sysroot(rng, 4000 if big else 300), monitor=mon_sysroot,
             nontrivial=lambda c, o: isinstance(o, list) and o[:1] == [b'ok'] and len(o[1]) >= 1,
             stats=lambda c, o: ['kinds=' + '+'.join(sorted(set(e[1].decode() for e in c[0])))],
@@ -1116,7 +1179,7 @@ def search_on_impl(rep, known):
     from ..prng import Rng
     exe = pipeline.harness_bin(HARNESS_BIN)
     for leg in legs(rep.tier):
-        if leg.name not in ('envdep', 'depinfo', 'keypair', 'args', 'key', 'staticlib', 'cwdpair', 'sysroot'):
+        if leg.name not in ('envdep', 'depinfo', 'keypair', 'args', 'key', 'staticlib', 'cwdpair', 'sysroot', 'archive'):
             continue
         rng = Rng(rep.seed).fork(ID + ':' + leg.name)
         cases = pipeline.corpus_cases(ID, leg.name) + list(leg.gen(rng, rep.tier))
